@@ -232,7 +232,7 @@ def classify(d, mp, woven_name, lines):
                 rendered=d.get('rendered', '')[:3000])
 
 
-def run_group(group, repo='/repo', outdir=None, seed=0, rlimit=None, extra_args=(), log_air=True, timeout=900):
+def run_group(group, repo='/repo', outdir=None, seed=0, rlimit=None, extra_args=(), log_air=True, timeout=3600):
     """run a group; when the code under contract calls a helper that is not under contract (a refactoring moved logic into a
     new function), extract that helper from the same source file and verify again (at most 3 rounds)"""
     extras = []
